@@ -47,7 +47,7 @@ KINDS = [
     ('def_ellipsis', 'any', ['value', '...'], 5, None, None, {}),
 ]
 NAMES = ['a', 'b', 'c']
-HOOKS = [None, 'count', 'raise', 'assign']
+HOOKS = [None, 'count', 'raise', 'assign', 'lead']      # 'lead': no user hook, but a field that is NOT a constructor argument declared first
 
 
 def field_choices():
@@ -85,6 +85,11 @@ def make_spec(combo, fmt, hook):
     elif hook == 'assign':
         spec['post'] = ['assign_self', NAMES[0]]
         spec['opts']['frozen'] = False
+    elif hook == 'lead':
+        # init=False, filled in by the class itself; it sits BEFORE the positional fields and has another type than they do
+        spec['fields'] = [dict(name='h0', type=['list', 'str'], default=None, kw_only=False, kind='hidden', init=False, exclude=True,
+                               compare=False, repr=False)] + fields
+        spec['init_false_setter'] = [['h0', "['hid']"]]
     elif hook == 'raise':
         spec['post'] = ['raise_if', NAMES[0], {'int': '13', 'float': '13.0'}.get(fields[0]['type'], "'never'") if isinstance(fields[0]['type'], str) else "'never'", 'HookBoom']
     return spec
@@ -125,8 +130,8 @@ def run_class(pane, res, idx, combo, fmt, hook, only=None):
         res['outcomes']['class_refused'] += 1
         return
     res['states'] += 1
-    fields = classes_gen.effective_fields(spec)          # kw-only moved behind
-    decl = spec['fields']
+    fields = [f for f in classes_gen.effective_fields(spec) if f.get('init', True)]          # kw-only moved behind
+    decl = [f for f in spec['fields'] if f.get('init', True)]
     pos = [f for f in fields if not f['kw_only']]
     kinds = '+'.join(f['kind'] + ('*' if f['kw_only'] else '') for f in decl)
     tuple_ok = 'tuple' in fmt
